@@ -49,9 +49,9 @@ open Capella.Decl in
 every instruction (recursively through nested `sync`) finds exactly one object in its list and that
 object already carries the entry's `set` values, then `apply` returns the very same graph — whatever the
 promise ids, type hints, nesting depth and number of instructions. -/
-theorem settled_run_changes_nothing {dflt : List (Capella.Decl.Str × Capella.Decl.Str)} {g : Graph}
+theorem settled_run_changes_nothing {mm : MM} {g : Graph}
     {doc : List Instr} {g' : Graph} {ps' : Promises} (hdoc : ∀ i ∈ doc, SettledInstr g i)
-    (h : apply dflt g doc = .ok (g', ps')) : g' = g :=
+    (h : apply mm g doc = .ok (g', ps')) : g' = g :=
   settled_apply hdoc h
 
 open Capella.Decl in
@@ -86,8 +86,8 @@ def SyncOnly (doc : List Instr) : Prop :=
 /-- Idempotence for *all* sync-only documents: a second application returns the graph the first one
 left. **False** (`sync_idempotent_full_fails`): a `set` key may override a `find` key. -/
 def SyncIdempotent_full : Prop :=
-  ∀ (dflt : List (Capella.Decl.Str × Capella.Decl.Str)) (g : Graph) (doc : List Instr) (g1 g2 : Graph) (ps1 ps2 : Promises),
-    SyncOnly doc → apply dflt g doc = .ok (g1, ps1) → apply dflt g1 doc = .ok (g2, ps2) → g2 = g1
+  ∀ (mm : MM) (g : Graph) (doc : List Instr) (g1 g2 : Graph) (ps1 ps2 : Promises),
+    SyncOnly doc → apply mm g doc = .ok (g1, ps1) → apply mm g1 doc = .ok (g2, ps2) → g2 = g1
 
 /-- `find: {name: A}`, `set: {name: B}` below object 1 -/
 def overrideDoc : List Instr := [
@@ -102,8 +102,8 @@ def objCount (r : Except Err (Graph × Promises)) : Option Nat :=
 
 /-- first run: 2 objects; second run on its result: 3 -/
 theorem override_counts :
-    objCount (apply [] g0 overrideDoc) = some 2 ∧
-    objCount ((apply [] g0 overrideDoc).bind fun r => apply [] r.1 overrideDoc) = some 3 := by
+    objCount (apply (MM.free []) g0 overrideDoc) = some 2 ∧
+    objCount ((apply (MM.free []) g0 overrideDoc).bind fun r => apply (MM.free []) r.1 overrideDoc) = some 3 := by
   decide
 
 /-- The statement without the hypothesis is refuted by the model (and, replayed on every run, by the
@@ -111,16 +111,16 @@ implementation: known finding `sync-twice|creates-again|set-overrides-find-key`)
 theorem sync_idempotent_full_fails : ¬ SyncIdempotent_full := by
   intro h
   have hc := override_counts
-  cases h1 : apply [] g0 overrideDoc with
+  cases h1 : apply (MM.free []) g0 overrideDoc with
   | error e => simp [h1, objCount] at hc
   | ok r1 =>
     obtain ⟨g1, ps1⟩ := r1
     simp only [h1, Except.bind] at hc
-    cases h2 : apply [] g1 overrideDoc with
+    cases h2 : apply (MM.free []) g1 overrideDoc with
     | error e => simp [h2, objCount] at hc
     | ok r2 =>
       obtain ⟨g2, ps2⟩ := r2
-      have := h [] g0 overrideDoc g1 g2 ps1 ps2 (by intro i hi; simp [overrideDoc] at hi; subst hi; simp) h1 h2
+      have := h (MM.free []) g0 overrideDoc g1 g2 ps1 ps2 (by intro i hi; simp [overrideDoc] at hi; subst hi; simp) h1 h2
       simp [h2, objCount] at hc
       rw [this] at hc
       omega
@@ -143,7 +143,7 @@ example : ∀ i ∈ settledDoc, SettledInstr gSettled i := by
   refine ⟨1, Or.inl ⟨rfl, by decide⟩, rfl, rfl, rfl, rfl, ?_⟩
   refine ⟨⟨⟨rfl, trivial, 5, [(ds "name", .str (ds "A"))], by rfl, ⟨by rfl, trivial⟩, trivial⟩, trivial⟩, trivial⟩
 
-example : (match apply [] gSettled settledDoc with | .ok r => some (decide (r.1 = gSettled), r.2) | .error _ => none)
+example : (match apply (MM.free []) gSettled settledDoc with | .ok r => some (decide (r.1 = gSettled), r.2) | .error _ => none)
     = some (true, [(ds "p", 5)]) := by decide
 
 end
